@@ -175,6 +175,11 @@ fn literal_texts(quick: bool) -> Vec<String> {
         v.push("e9223372036854775807".into());
         v.push("e-9223372036854775808".into());
         v.push("e99999999999999999999".into());
+        v.push("e-99999999999999999999".into());
+        v.push("e-9223372036854775807".into());
+        v.push("e9223372036854775808".into());
+        v.push("E+18446744073709551616".into());
+        v.push("e-18446744073709551615".into());
         v
     };
     let mut out = Vec::new();
@@ -254,12 +259,10 @@ fn check_literals(ctx: &Ctx, total: &mut Report) {
                         }
                     }
                     o => {
-                        // exponents beyond i64 may be rejected by the lexer although the value is 0 or finite
-                        if t.contains("e99999999999999999999") || t.contains("e-9223372036854775808") || t.contains("e9223372036854775807") {
-                            total.count("huge_exponent_rejected", 1);
-                        } else {
-                            total.violation("C06/literal/rejected-valid", format!("literal `{}` should be {want:e} but gives {}", util::truncate(t, 80), o.short()), case);
-                        }
+                        // (a literal whose exponent does not fit 64 bits still denotes 0 or a
+                        // finite double: rejecting it is reported under its own signature)
+                        let sig = if matches!(o, Outcome::Load { kind, .. } if kind.contains("ExpOverflow")) { "C06/literal/rejected-valid/exponent-beyond-64-bits" } else { "C06/literal/rejected-valid" };
+                        total.violation(sig, format!("literal `{}` should be {want:e} but gives {}", util::truncate(t, 80), o.short()), case);
                     }
                 }
             }
